@@ -3,6 +3,7 @@
 package checks
 
 import (
+	"encoding/json"
 	"fmt"
 	"os"
 	"path/filepath"
@@ -68,6 +69,31 @@ func C11(c *core.Ctx) {
 			di, de := projDump(pi), projDump(pe)
 			if di != de {
 				c.Report(core.Finding{Sig: "defaults-differ:" + key, Detail: fmt.Sprintf("%s: implicit %s and explicit %s load to different projects: %s", key, implicit, explicit, firstDiff(di, de)), Replay: rep})
+			}
+			// the same pair with the attributes arriving from an override file, an extended base (with and without a local
+			// refinement), an included file, and under a `name:` that differs from the requested project name
+			if !c.Quick() || n%4 == 0 {
+				pim, _ := plainOf(cs["implicit"]).(map[string]interface{})
+				pex, _ := plainOf(cs["explicit"]).(map[string]interface{})
+				for _, pl := range []string{"named", "override", "extends", "extends-refined", "included"} {
+					li := c11Place(wd, "i", pl, pim)
+					le := c11Place(wd, "e", pl, pex)
+					if li == nil || le == nil {
+						continue
+					}
+					c.Eval(pl+"|"+implicit, implicit != explicit)
+					qi, e1 := safeLoad(wd, nil, li)
+					qe, e2 := safeLoad(wd, nil, le)
+					switch {
+					case e1 != nil && e2 != nil:
+					case e1 != nil || e2 != nil:
+						c.Report(core.Finding{Sig: "defaults-differ-" + pl + ":" + key, Detail: fmt.Sprintf("%s (%s): the implicit form gives %v, the explicit form gives %v — %s", key, pl, e1, e2, implicit), Replay: rep})
+					default:
+						if a, b := projDump(qi), projDump(qe); a != b {
+							c.Report(core.Finding{Sig: "defaults-differ-" + pl + ":" + key, Detail: fmt.Sprintf("%s (%s): implicit %s and explicit %s load to different projects: %s", key, pl, implicit, explicit, firstDiff(a, b)), Replay: rep})
+						}
+					}
+				}
 			}
 		}
 		return nil
@@ -175,4 +201,56 @@ func secNames(p *types.Project) map[string]string {
 		m[k] = v.Name
 	}
 	return m
+}
+
+func c11Clone(v interface{}) interface{} {
+	b, _ := json.Marshal(v)
+	var out interface{}
+	_ = json.Unmarshal(b, &out)
+	return out
+}
+
+// c11Place writes the document in one of the placements and returns the files to load (nil: not applicable).
+func c11Place(wd, tag, placement string, doc map[string]interface{}) []namedDoc {
+	if doc == nil {
+		return nil
+	}
+	d := c11Clone(doc).(map[string]interface{})
+	svcs, _ := d["services"].(map[string]interface{})
+	a, _ := svcs["a"].(map[string]interface{})
+	if a == nil {
+		return nil
+	}
+	js := func(v interface{}) string { b, _ := json.Marshal(v); return string(b) }
+	main := filepath.Join(wd, tag+"-main.yaml")
+	switch placement {
+	case "named":
+		d["name"] = "fromfile"
+		return []namedDoc{{Name: main, Content: js(d)}}
+	case "override":
+		rest := map[string]interface{}{}
+		for k, v := range a {
+			if k != "image" {
+				rest[k] = v
+				delete(a, k)
+			}
+		}
+		if len(rest) == 0 {
+			return nil
+		}
+		over := map[string]interface{}{"services": map[string]interface{}{"a": rest}}
+		return []namedDoc{{Name: main, Content: js(d)}, {Name: filepath.Join(wd, tag+"-over.yaml"), Content: js(over)}}
+	case "extends", "extends-refined":
+		svcs["abase"] = a
+		derived := map[string]interface{}{"extends": map[string]interface{}{"service": "abase"}}
+		if placement == "extends-refined" {
+			derived["depends_on"] = map[string]interface{}{"db": map[string]interface{}{"condition": "service_healthy", "restart": true, "required": false}}
+		}
+		svcs["a"] = derived
+		return []namedDoc{{Name: main, Content: js(d)}}
+	case "included":
+		_ = os.WriteFile(filepath.Join(wd, tag+"-inc.yaml"), []byte(js(d)), 0o644)
+		return []namedDoc{{Name: main, Content: "include:\n  - " + tag + "-inc.yaml\nservices:\n  extra: {image: img}\n"}}
+	}
+	return nil
 }
